@@ -6,7 +6,7 @@ D=$(readlink -f $1); PKG=$2; RUN=$3
 WT=/tmp/wt-confirm-$$
 git -C /repo worktree add --detach $WT HEAD >/dev/null 2>&1
 trap "git -C /repo worktree remove --force $WT >/dev/null 2>&1" EXIT
-export GIT_CONFIG_GLOBAL=/dev/null GOFLAGS=-mod=mod GOPROXY=off
+GCFG=$(mktemp /tmp/confirm-gitconfig-XXXXXX); export GIT_CONFIG_GLOBAL=$GCFG GOFLAGS=-mod=mod GOPROXY=off
 cd $WT
 demo() {
   if [ "$PKG" = sh ]; then SRC=$WT bash $D/demo.sh $WT >/tmp/confirm-demo-$$.log 2>&1;
